@@ -84,7 +84,7 @@ func (c *Conn) readMessage() error {
 	// MUST be 0 unless an extension is negotiated that defines meanings for non-zero values.
 	// If a nonzero value is received and none of the negotiated extensions defines the meaning of such a nonzero value,
 	// the receiving endpoint MUST _Fail the WebSocket Connection_.
-	if !c.pd.Enabled && (c.fh.GetRSV1() || c.fh.GetRSV2() || c.fh.GetRSV3()) {
+	if c.fh.GetRSV2() || c.fh.GetRSV3() || (c.fh.GetRSV1() && !c.pd.Enabled) {
 		return internal.CloseProtocolError
 	}
 
@@ -95,6 +95,10 @@ func (c *Conn) readMessage() error {
 
 	var opcode = c.fh.GetOpcode()
 	var compressed = c.pd.Enabled && c.fh.GetRSV1()
+	// RFC7692: RSV1 is only defined on the first frame of a data message
+	if compressed && (!opcode.isDataFrame() || opcode == OpcodeContinuation) {
+		return internal.CloseProtocolError
+	}
 	if !opcode.isDataFrame() {
 		return c.readControl()
 	}
